@@ -3,7 +3,9 @@
 openssl CLI) plus a few credentials minted with openssl for formats testkeys lacks (CRL, PKCS#12,
 PBES2 PKCS#8, encrypted PEM, certificates carrying every extension the parser knows).
 Every file starts with the target's selector byte(s) and, for multi-part targets, the u16 part lengths.
-Run once; the result is committed.  Passwords of all encrypted seeds: "pw"."""
+Run once; the result is committed.  Passwords of all encrypted seeds: "pw".
+The derived seeds (cut_*, hdr_*: make_tail_time_seeds.py; x_*: make_key_cross_seeds.py) are computed from the files
+written here: re-run those two scripts after this one."""
 import os, re, shutil, struct, subprocess, sys, tempfile, base64
 
 REPO = os.environ.get('VERIF_REPO', '/repo')
